@@ -51,10 +51,12 @@ proof fn vacuity_pre(r: v1::Function, a: v1::Function, b: v1::Function, m: Map<u
         min_items=10,
         trusted_base=common.TRUSTED_COMMON + common.T4_COLLECTIONS + [
             'T4 std contracts of the BTreeMap entry API (entry / or_default / or_insert with a prophecy-style &mut, remove) and of into_iter().map().collect() (ascending key order), helper contracts zip_zip (Iterator::zip of three slices), chain_refs, btree_into_vec2 / btreemap_collect2 (key-ordered listing of a map with pair keys), vassert_eq (assert_eq! as a precondition), axiom ax_pair_u64_cmp (lexicographic Ord of (u64,u64)) and ax_default_f64 (f64::default() == 0.0): prelude/btree_entry.rs',
-            'T5 ASSUMED leaf contracts (BTreeMap entry/merge code, not verified): ' + ', '.join(names) + ' - each with an uninterpreted epsilon-drop remainder',
+            'T5: no operator leaf is assumed any more' + (' except: ' + ', '.join(names) if names else '') + '; the remaining assumptions are std helper contracts only (R31 pipeline helpers vec_refs / vec_map_collect / vec_chain / vec_once / vec_empty / vec_filter / range_map_collect / opt_into_vec: prelude/std_helpers.rs)',
+            'R31: iterator pipelines (Box<dyn Iterator> built from iter / map / chain / once / empty / filter / (a..b).map) are instantiated at Vec, one helper call per adapter in evaluation order; a From impl that needs a precondition (From<Quadratic> for Polynomial: equal COO lengths) is placed as an inherent function (from_quadratic) because a trait impl cannot carry a requires clause in Verus',
             'R28: BTreeMap<Vec<u64>, f64> / BTreeMap<SortedIds, f64> replaced by the model types VMap / SMap (keys compared by content); std helpers vec_sort_unstable (sorted permutation), vec_extend_u64, vec_refs, smap_into_vec / smap_into_monomials / vmap_into_monomials (one item per entry)',
             'R25 index loop for `for term in &mut self.terms`; `.expect("Empty Function")` treated as unwrap (panic on an unset oneof: precondition of the operators)',
         ],
         assumptions=common.A1 + ['operands of Function + / * have their oneof set (the code panics otherwise: observation outside the property)'] + common.A_COO,
-        not_covered=['the BTreeMap-merge leaves other than Linear+Linear, Linear::new, Linear*Linear, Quadratic+Linear, Quadratic+Quadratic, FromIterator for Quadratic, Polynomial+Polynomial, Polynomial*Polynomial, FromIterator for Polynomial, and the term iterators of &Linear / &Quadratic / &Function (the one of &Polynomial is proved)', 'the size of the epsilon-drop remainder'],
+        not_covered=['the size of the epsilon-drop remainders (every remainder is DEFINED: the difference to the specified merge, the entries of the exact product map within epsilon, what an upcast dropped times the other operand)',
+                     'Display / AbsDiffEq / Arbitrary impls, as_linear / as_constant / degree / get_constant accessors'],
     )
